@@ -39,12 +39,14 @@ Inductive ev :=
 | Raise (e : exn).                  (* an exception leaves the WSGI callable or next() of its iterable *)
 
 (** ** the request scenario *)
-Inductive stage := SOk | SFault | SCrash (e : exn).
+(** a stage of the pipeline returns normally, ends in a Fault (any class: the class decides
+    nothing in the WSGI layer, it is only carried to the response), or lets another exception escape *)
+Inductive stage := SOk | SFault (f : fkind) | SCrash (e : exn).
 (** outcome of [next(g)] when the user function returned a generator *)
-Inductive first_step := FItem | FStop | FRaise.
+Inductive first_step := FItem | FStop | FRaise (f : fkind).
 Inductive result := RPlain | RGen (f : first_step).
 (** process_request catches Fault and Exception alike and sets ctx.out_error *)
-Inductive user_out := UReturn (r : result) | URaise.
+Inductive user_out := UReturn (r : result) | URaise (f : fkind).
 (** ctx.out_string after get_out_string: a sized sequence (list/tuple: has len())
     or a lazy iterable (generator, chain: no len()) that yields the chunks and
     then ends or raises *)
@@ -166,16 +168,16 @@ Definition handle_rpc (c : cfg) (r : req) : outcome :=
         | RDone =>
             match s_gen r with
             | SCrash e => Out reads false (Escapes e)
-            | SFault => Out reads false (handle_error r FOther)
+            | SFault f => Out reads false (handle_error r f)
             | SOk =>
                 match s_in r with
                 | SCrash e => Out reads false (Escapes e)
-                | SFault => Out reads false (handle_error r FOther)
+                | SFault f => Out reads false (handle_error r f)
                 | SOk =>
                     (* get_out_object: the user function runs *)
                     match s_user r with
-                    | URaise => Out reads true (handle_error r FOther)
-                    | UReturn (RGen FRaise) => Out reads true (handle_error r FOther)
+                    | URaise f => Out reads true (handle_error r f)
+                    | UReturn (RGen (FRaise f)) => Out reads true (handle_error r f)
                     | UReturn _ => Out reads true (respond_ok c r)
                     end
                 end
